@@ -141,7 +141,8 @@ func ruleStructDescriptor(c *Ctx) {
 		id, ok := sel.X.(*ast.Ident)
 		return ok && info.Uses[id] == recv
 	}
-	c.Oblige("T.desc-struct", rng != nil && isRecvField(rng.X, "fields"), fn.Decl.Pos(), fn.Name(), "ranges over c.fields",
+	ssaFacts := structDescriptorSSA(p)
+	c.Oblige("T.desc-struct", (rng != nil && isRecvField(rng.X, "fields")) || ssaFacts["ranges"], fn.Decl.Pos(), fn.Name(), "ranges over c.fields",
 		"the descriptor must be built from the same field list, in the same (declaration) order, as the encoder", nil)
 	if rng == nil {
 		return
@@ -227,6 +228,12 @@ func ruleStructDescriptor(c *Ctx) {
 		}
 	}
 	rng = first
+	// the same three facts read off the SSA form: either reading suffices
+	for k, v := range structDescriptorSSA(p) {
+		if v {
+			got[k] = true
+		}
+	}
 	c.Oblige("T.desc-struct", got["elem"], rng.Pos(), fn.Name(), "Elements[i] = f.codec.Descriptor()", "each element is the field codec's own descriptor", nil)
 	c.Oblige("T.desc-struct", got["index"], rng.Pos(), fn.Name(), "Elements[i].Index = f.index", "each element carries the field's plenc index", nil)
 	c.Oblige("T.desc-struct", got["name"], rng.Pos(), fn.Name(), "Elements[i].Name = f.name", "each element carries the field's name", nil)
@@ -276,6 +283,9 @@ func ruleStructDescriptor(c *Ctx) {
 			}
 			return true
 		})
+	}
+	if ssaFacts["len"] {
+		lenOK = true
 	}
 	c.Oblige("T.desc-struct", typeOK && nameOK && lenOK, fn.Decl.Pos(), fn.Name(), "Type=FieldTypeStruct, TypeName=rtype.Name(), len(Elements)=len(fields)",
 		fmt.Sprintf("struct descriptor header: type %v, type name %v, one element per encoded field %v", typeOK, nameOK, lenOK), nil)
